@@ -68,14 +68,17 @@ func runC06(c *eng.Ctx) {
 		g := p.GraphOf(f)
 		loadHook := p.Method(pkgHook, "Manager", "loadHook")
 		namesInOrder := p.Field(pkgHook, "Manager", "hookNamesInOrder")
-		var loop *ast.RangeStmt
+		var el *eng.ElemLoop
 		for _, call := range callsIn(info, f.Decl.Body, isObj(loadHook)) {
-			loop, _ = eng.LoopOf(f.Decl.Body, call.Pos()).(*ast.RangeStmt)
+			if l := elemLoopAt(info, f.Decl.Body, call.Pos()); l != nil && len(call.Args) == 1 && l.IsElem(call.Args[0]) {
+				el = l
+			}
 		}
-		if loop == nil {
-			r2.Bad(f.Key+" load-loop", f.Decl.Pos(), "no range loop calling loadHook")
+		if el == nil {
+			r2.Bad(f.Key+" load-loop", f.Decl.Pos(), "no loop over the discovered paths calling loadHook(path)")
 		} else {
-			pathsVar := eng.SelObj(info, loop.X)
+			loop := el.Stmt
+			pathsVar := eng.SelObj(info, el.Base)
 			isSort := func(n *eng.GNode) bool {
 				return len(g.CallsAt(n, func(o types.Object, call *ast.CallExpr) bool {
 					fn, ok := o.(*types.Func)
@@ -86,8 +89,8 @@ func runC06(c *eng.Ctx) {
 					return full == "sort.Strings" || full == "slices.Sort"
 				})) > 0
 			}
-			head := g.NodeOf(loop.X)
-			r2.Check(head != nil && eng.IsAscendingLoop(info, loop) && g.OnlyVia(head, isSort, nil), f.Key+" sorted-before-load", loop.Pos(), "sort.Strings(paths) dominates the ascending load loop", "hooks are loaded without sorting the discovered paths first: load (and enable) order depends on the directory walk")
+			head := loopBodyEntryOf(g, loop)
+			r2.Check(head != nil && !el.Desc && pathsVar != nil && g.OnlyVia(head, isSort, nil), f.Key+" sorted-before-load", loop.Pos(), "sort.Strings(paths) dominates the ascending load loop", "hooks are loaded without sorting the discovered paths first: load (and enable) order depends on the directory walk")
 			regs := func(n *eng.GNode) bool {
 				as, ok := n.Node.(*ast.AssignStmt)
 				if !ok || len(as.Lhs) != 1 || !eng.IsField(info, as.Lhs[0], namesInOrder) {
@@ -98,18 +101,14 @@ func runC06(c *eng.Ctx) {
 			}
 			// error returns are the only other way out of an iteration
 			okReg := true
-			var bodyEntry *eng.GNode
-			for _, gn := range g.Nodes {
-				if gn.Node == nil && gn.Block.Stmt == ast.Stmt(loop) && gn.Block.Kind.String() == "RangeBody" {
-					bodyEntry = gn
-				}
-			}
+			bodyEntry := loopBodyEntryOf(g, loop)
+			isHead := isLoopHeadOf(loop)
 			if bodyEntry == nil {
 				okReg = false
 			} else {
 				reach := g.Reach(eng.Query{From: []*eng.GNode{bodyEntry}, AvoidNode: regs})
 				for m := range reach {
-					if m.Node == nil && m.Block.Stmt == ast.Stmt(loop) && m.Block.Kind.String() == "RangeLoop" {
+					if isHead(m) {
 						okReg = false
 					}
 				}
@@ -261,40 +260,35 @@ func runC06R3(c *eng.Ctx, r *eng.RuleCtx) {
 	onStartup := p.Object(pkgHTypes, "OnStartup")
 	enKube := p.Object(pkgMeta, "EnableKubernetesBindings")
 	enSched := p.Object(pkgMeta, "EnableScheduleBindings")
-	var startupLoop, enableLoop *ast.RangeStmt
-	eng.InspectNoLit(f.Decl.Body, func(n ast.Node) bool {
-		rs, ok := n.(*ast.RangeStmt)
-		if !ok {
-			return true
+	var startupEl, enableEl *eng.ElemLoop
+	for _, el := range elemLoopsOver(info, f.Decl.Body, func(ast.Expr) bool { return true }) {
+		if isCallTo(info, el.Base, getNames) {
+			enableEl = el
 		}
-		if isCallTo(info, rs.X, getNames) {
-			enableLoop = rs
-		}
-		if v, isV := eng.SelObj(info, rs.X).(*types.Var); isV {
+		if v, isV := eng.SelObj(info, el.Base).(*types.Var); isV {
 			for _, e := range eng.AssignedExprs(info, f.Decl.Body, v) {
 				if cl, isC := ast.Unparen(e).(*ast.CallExpr); isC && eng.CalleeOf(info, cl) == getInOrder && len(cl.Args) == 1 && eng.SelObj(info, cl.Args[0]) == onStartup {
-					startupLoop = rs
+					startupEl = el
 				}
 				if isCallTo(info, e, getNames) {
-					enableLoop = rs
+					enableEl = el
 				}
 			}
 		}
-		return true
-	})
-	if startupLoop == nil || enableLoop == nil {
-		r.Bad(f.Key+" loops", f.Decl.Pos(), fmt.Sprintf("expected a loop over GetHooksInOrder(OnStartup) (found=%v) and a loop over GetHookNames() (found=%v)", startupLoop != nil, enableLoop != nil))
+	}
+	if startupEl == nil || enableEl == nil {
+		r.Bad(f.Key+" loops", f.Decl.Pos(), fmt.Sprintf("expected a loop over GetHooksInOrder(OnStartup) (found=%v) and a loop over GetHookNames() (found=%v)", startupEl != nil, enableEl != nil))
 		return
 	}
+	startupLoop, enableLoop := startupEl.Stmt, enableEl.Stmt
 	isAdd := func(n *eng.GNode) bool { return len(g.CallsAt(n, isObj(addLast))) > 0 }
-	okStartup := eng.IsAscendingLoop(info, startupLoop) && loopNoEarlyExit(g, startupLoop) && loopBodyMustPass(g, startupLoop, isAdd)
+	okStartup := !startupEl.Desc && loopNoEarlyExit(g, startupLoop) && loopBodyMustPass(g, startupLoop, isAdd)
 	// the task of the iteration names the hook of the iteration
-	if okStartup && startupLoop.Value != nil {
-		elem := eng.SelObj(info, startupLoop.Value)
+	if okStartup {
 		uses := false
-		eng.InspectNoLit(startupLoop.Body, func(n ast.Node) bool {
+		eng.InspectNoLit(startupEl.Body, func(n ast.Node) bool {
 			if kv, ok := n.(*ast.KeyValueExpr); ok {
-				if id, isI := kv.Key.(*ast.Ident); isI && id.Name == "HookName" && eng.SelObj(info, kv.Value) == elem {
+				if id, isI := kv.Key.(*ast.Ident); isI && id.Name == "HookName" && startupEl.IsElem(kv.Value) {
 					uses = true
 				}
 			}
@@ -303,15 +297,19 @@ func runC06R3(c *eng.Ctx, r *eng.RuleCtx) {
 		okStartup = uses
 	}
 	r.Check(okStartup, f.Key+" onStartup-loop", startupLoop.Pos(), "one AddLast per onStartup hook, ascending", "the onStartup loop does not queue exactly one task per hook name in order")
-	head2 := g.NodeOf(enableLoop.X)
+	head2 := loopBodyEntryOf(g, enableLoop)
 	isHead1 := func(n *eng.GNode) bool {
-		return n.Node == nil && n.Block.Stmt == ast.Stmt(startupLoop) && n.Block.Kind.String() == "RangeDone"
+		if n.Node != nil || n.Block.Stmt != startupLoop {
+			return false
+		}
+		k := n.Block.Kind.String()
+		return k == "RangeDone" || k == "ForDone"
 	}
 	r.Check(head2 != nil && g.OnlyVia(head2, isHead1, nil), f.Key+" onStartup-before-enable", enableLoop.Pos(), "the enable loop starts only after the onStartup loop is done", "enable tasks can be queued before (or without) the onStartup tasks")
 	// kubernetes before schedule within an iteration
 	var kubeNode, schedNode *eng.GNode
 	for _, n := range g.Nodes {
-		if !isAdd(n) || eng.LoopOf(f.Decl.Body, n.Node.Pos()) != ast.Stmt(enableLoop) {
+		if !isAdd(n) || eng.LoopOf(f.Decl.Body, n.Node.Pos()) != enableLoop {
 			continue
 		}
 		var arg ast.Expr
@@ -336,11 +334,8 @@ func runC06R3(c *eng.Ctx, r *eng.RuleCtx) {
 		r.Bad(f.Key+" enable-tasks", enableLoop.Pos(), fmt.Sprintf("enable tasks not found (kubernetes=%v schedule=%v)", kubeNode != nil, schedNode != nil))
 		return
 	}
-	isHead := func(n *eng.GNode) bool {
-		return n.Node == nil && n.Block.Stmt == ast.Stmt(enableLoop) && n.Block.Kind.String() == "RangeLoop"
-	}
-	reach := g.Reach(eng.Query{From: []*eng.GNode{schedNode}, AvoidNode: isHead})
-	r.Check(!reach[kubeNode] && eng.IsAscendingLoop(info, enableLoop) && loopNoEarlyExit(g, enableLoop), f.Key+" kubernetes-before-schedule", kubeNode.Node.Pos(), "per hook: EnableKubernetesBindings is queued before EnableScheduleBindings, for every hook in order", "for one hook the schedule enable task can be queued before the kubernetes enable task (its schedules would produce tasks before its Synchronization), or the loop does not visit every hook")
+	reach := g.Reach(eng.Query{From: []*eng.GNode{schedNode}, AvoidNode: isLoopHeadOf(enableLoop)})
+	r.Check(!reach[kubeNode] && !enableEl.Desc && loopNoEarlyExit(g, enableLoop), f.Key+" kubernetes-before-schedule", kubeNode.Node.Pos(), "per hook: EnableKubernetesBindings is queued before EnableScheduleBindings, for every hook in order", "for one hook the schedule enable task can be queued before the kubernetes enable task (its schedules would produce tasks before its Synchronization), or the loop does not visit every hook")
 }
 
 // enclosingBlockOf returns the innermost block statement containing pos.
